@@ -53,6 +53,7 @@ func c14R2(c *Ctx, rule string) {
 		for _, s := range sites {
 			if ifi.Block().Succs[0] == s.Instr.Block() {
 				cd := c.P.CondOf(ifi.Cond)
+				cd, _ = cd.WithY(func(d string) bool { return d == "recv.quorumSize()" })
 				if cd.IsRel && cd.EdgeOrd(true) == engine.GT|engine.EQ && cd.Y == "recv.quorumSize()" {
 					tally = cd.XV
 				}
@@ -175,7 +176,7 @@ func c14R3(c *Ctx, rule string) {
 				return false, 0
 			}
 			s := cd.EdgeOrd(true)
-			if s == engine.LT|engine.GT {
+			if isNE(s) {
 				return true, engine.True
 			}
 			if s == engine.EQ {
@@ -219,7 +220,7 @@ func c14R3(c *Ctx, rule string) {
 			predErr("rpcErr", "type-assert"),
 			engine.PredCond("rpcErr2", func(cd engine.Cond) (bool, int) {
 				if cd.IsRel && strings.Contains(cd.X, ".RequestPreVote(") && cd.Y == "nil" {
-					if cd.EdgeOrd(true) == engine.LT|engine.GT {
+					if isNEc(cd) {
 						return true, engine.True
 					}
 					return true, engine.False
